@@ -40,6 +40,7 @@ var Corpus = map[string][]string{
 		"#\na: 1\n", "# \n#\n---\n#\nb: 2 #\n", "a: 1 #\nb: #\n  - 1\n#\n",
 		// strings that are expressions (eval), also ones that eval themselves
 		"a: \"eval(.a)\"\nb: \".c\"\nc: [1, 2]\nx: &x {k: 1}\n",
+		"a: \"eval(.a) + 1\"\nb: \"eval(eval(.b))\"\nc: \"[eval(.c)]\"\nd: \"select(eval(.d))\"\n",
 		"a: &a {k: 1, b: [1]}\nb: *a\nc: {d: *a}\n", "- &s [1, 2]\n- *s\n- {a: *s, b: 1}\n",
 		"a: \".. | eval(.a)\"\nb: \"eval(.b) , .\"\n",
 		"- \"eval(.[0])\"\n- \".[1]\"\n- \"load(.[2])\"\n",
